@@ -64,8 +64,9 @@ def run(ctx):
         return float(table[g])
 
     if multi:
-        mins = [minimize, not minimize]
-        problem = MultiObjectiveProblem(mins, lambda p: [value(p.v), value(p.v + 1)])
+        scalar = bool(H.draw(2))  # `minimize` given as one bool for all objectives (resolved lazily at the first evaluation)
+        mins = [minimize, minimize] if scalar else [minimize, not minimize]
+        problem = MultiObjectiveProblem(minimize if scalar else mins, lambda p: [value(p.v), value(p.v + 1)])
 
         def agg(g):
             c = [value(g), value(g + 1)]
